@@ -40,7 +40,7 @@ func (g *c07Gen) id(p string) string         { g.uniq++; return fmt.Sprintf("%s%
 var c07Locals = []string{"a", "b", "c"}
 
 // names that exist outside the template: Execute variable, global, both, built-in
-var c07Outer = []string{"ev", "gv", "both", "lower"}
+var c07Outer = []string{"ev", "gv", "both", "lower", "upper"}
 
 func (g *c07Gen) value(vis []string) *mj.Expr {
 	switch g.n(0, 5, "valkind") {
@@ -98,7 +98,7 @@ func (g *c07Gen) probes(vis []string) []*mj.Node {
 		case 3:
 			out = append(out, mj.Text("(.="), mj.Print(mj.Dot()), mj.Text(")"))
 		case 4:
-			v := []string{"ev", "gv", "both"}[g.n(0, 2, "outerprobe")]
+			v := []string{"ev", "gv", "both", "upper"}[g.n(0, 3, "outerprobe")] // "upper": a global that shadows the built-in
 			out = append(out, mj.Text("("+v+"="), mj.Print(mj.Var(v)), mj.Text(")"))
 		default:
 			out = append(out, mj.Text(g.id("t")))
@@ -316,7 +316,7 @@ func (g *c07Gen) stmts(depth int, vis []string) []*mj.Node {
 			out = append(out, g.probes(vis)...)
 			g.labels["read-after-block"] = true
 		case k == 10: // yield with content: content runs in this scope; its assignments persist
-			name := "wrap"
+			name := []string{"wrap", "wrapctx"}[g.n(0, 1, "whichwrap")]
 			n := &mj.Node{K: "yield", Name: name, HasCont: true}
 			if g.n(0, 2, "yctx") == 0 {
 				n.Ctx = mj.Str(g.id("yctx"))
@@ -351,10 +351,14 @@ func (g *c07Gen) stmts(depth int, vis []string) []*mj.Node {
 func genC07(t *rapid.T) c07Case {
 	g := &c07Gen{t: t, labels: map[string]bool{}}
 	g.p = &mj.Program{Entry: "/main.jet", Vars: map[string]mj.Recipe{"ev": mj.RStr("EV0"), "both": mj.RStr("BOTH-var")},
-		Globals: map[string]mj.Recipe{"gv": mj.RStr("GV0"), "both": mj.RStr("BOTH-global")}}
+		Globals: map[string]mj.Recipe{"gv": mj.RStr("GV0"), "both": mj.RStr("BOTH-global"), "upper": mj.RStr("GLOBAL-named-like-a-builtin")}}
 	d := mj.RStr("CTX")
 	g.p.Data = &d
-	g.lib = &mj.File{Path: "/lib.jet", Body: []*mj.Node{{K: "block", Name: "wrap", Body: []*mj.Node{mj.Text("{w:"), {K: "ycontent"}, mj.Text(":w}")}}}}
+	g.lib = &mj.File{Path: "/lib.jet", Body: []*mj.Node{
+		{K: "block", Name: "wrap", Body: []*mj.Node{mj.Text("{w:"), {K: "ycontent"}, mj.Text(":w}")}},
+		// the content gets its own context; '.' must be the block's again right after it
+		{K: "block", Name: "wrapctx", Body: []*mj.Node{mj.Text("{wc:"), {K: "ycontent", Ctx: mj.Str("content-ctx")}, mj.Text("(.="), mj.Print(mj.Dot()), mj.Text("):wc}")}},
+	}}
 	main := &mj.File{Path: "/main.jet", Imports: []string{"/lib.jet"}}
 	g.p.Files = []*mj.File{main, g.lib}
 	main.Body = append([]*mj.Node{mj.Text("<")}, g.stmts(0, nil)...)
